@@ -1,4 +1,97 @@
-/- driver operations of C11 (stub: no model yet) -/
+/- driver operations of C11 (sub-sampling, cropping, splitting, merging) -/
+import EvoModel.Model.Select
 namespace Evo.Drv.C11
-def handle (_op : String) (_args : List String) : Option String := none
+open Evo Evo.Select
+
+def showErr : Err → String
+  | .traj => "E_TRAJ"
+  | .filter => "E_FILTER"
+
+def showParts (ps : List (List Nat)) : String :=
+  "|".intercalate (ps.map fun p => ",".intercalate (p.map toString))
+
+def optRat? (s : String) : Option (Option Rat) :=
+  if s = "-" then some none else (parseRat? s).map some
+
+/-- angle between two rotations about one fixed axis with headings `h j`, `h i` given in degrees:
+`|h i − h j|` wrapped into `[0, 180]` -/
+def planarAngle (h : Array Rat) (j i : Nat) : Rat :=
+  let x := h.getD i 0 - h.getD j 0
+  let y := x - 360 * ((x / 360).floor : Rat)
+  if y ≤ 180 then y else 360 - y
+
+/-- ops (see `harness/props/C11.py`):
+  `linspace n N`                          → ids
+  `downsample n N`                        → `NOOP` | `E_TRAJ` | ids
+  `motion d a k lens… m table…`           → ids | `E_FILTER`   (table: n×n angles row-major, n = k+1)
+  `motionh d a k lens… n headings…`       → same, planar rotations, headings and `a` in degrees
+  `crop s e k ts…`                        → ids | `E_TRAJ`     (`-` = None)
+  `splitt dt k ts…`                       → parts of `range n` as `a,b|c,d`
+  `splitd thr k lens…`                    → parts
+  `splits vmax k lens… k ts…`             → parts | `E_TRAJ`
+  `merge m (k stamps…)×m`                 → `order ; sorted stamps` -/
+def handle (op : String) (args : List String) : Option String :=
+  match op, args with
+  | "linspace", [n, N] => do
+      let n ← n.toNat?; let N ← N.toNat?
+      some (showNats (linspaceIds n N))
+  | "downsample", [n, N] => do
+      let n ← n.toNat?; let N ← N.toNat?
+      match downsampleIds n N with
+      | .error e => some (showErr e)
+      | .ok none => some "NOOP"
+      | .ok (some ids) => some (showNats ids)
+  | "motion", d :: a :: rest => do
+      let d ← parseRat? d; let a ← parseRat? a
+      let (lens, rest) ← readRatList rest
+      let (tab, _) ← readRatList rest
+      let n := lens.length + 1
+      let arr := tab.toArray
+      match motionFilter lens (fun j i => arr.getD (j * n + i) 0) d a with
+      | .error e => some (showErr e)
+      | .ok ids => some (showNats ids)
+  | "motionh", d :: a :: rest => do
+      let d ← parseRat? d; let a ← parseRat? a
+      let (lens, rest) ← readRatList rest
+      let (hs, _) ← readRatList rest
+      match motionFilter lens (planarAngle hs.toArray) d a with
+      | .error e => some (showErr e)
+      | .ok ids => some (showNats ids)
+  | "crop", s :: e :: rest => do
+      let s ← optRat? s; let e ← optRat? e
+      let (ts, _) ← readRatList rest
+      match cropIds ts s e with
+      | .error x => some (showErr x)
+      | .ok ids => some (showNats ids)
+  | "splitt", dt :: rest => do
+      let dt ← parseRat? dt
+      let (ts, _) ← readRatList rest
+      some (showParts (slices (List.range ts.length) (splitTimeCuts ts dt)))
+  | "splitd", thr :: rest => do
+      let thr ← parseRat? thr
+      let (lens, _) ← readRatList rest
+      some (showParts (slices (List.range (lens.length + 1)) (splitDistCuts lens thr)))
+  | "splits", v :: rest => do
+      let v ← parseRat? v
+      let (lens, rest) ← readRatList rest
+      let (ts, _) ← readRatList rest
+      match splitSpeedCuts lens ts v with
+      | .error x => some (showErr x)
+      | .ok cuts => some (showParts (slices (List.range ts.length) cuts))
+  | "merge", m :: rest => do
+      let m ← m.toNat?
+      let rec go (k : Nat) (rest : List String) (off : Nat) (acc : List (Traj Nat Nat)) :
+          Option (List (Traj Nat Nat)) :=
+        match k with
+        | 0 => some acc.reverse
+        | k + 1 => do
+            let (s, rest) ← readRatList rest
+            -- payloads of both arrays: position in the concatenation
+            let ids := List.range' off s.length
+            go k rest (off + s.length) (⟨s, ids, ids⟩ :: acc)
+      let ts ← go m rest 0 []
+      let r := mergeTraj ts
+      if r.xyz = r.quat then some (showNats r.xyz ++ " ; " ++ showRats r.stamps) else some "BAD-MODEL"
+  | _, _ => none
+
 end Evo.Drv.C11
